@@ -115,3 +115,41 @@ CLIENT_SERVICE_YAML = {
         ]
     },
 }
+
+
+def rest_api():
+    """REST transcoding shapes (C04): verbs, body kinds, additional bindings, dotted variables, required fields."""
+    fb = gen.FileBuilder("google/example/rs/v1/library.proto", "google.example.rs.v1")
+    fb.enum("Kind", ["KIND_UNSPECIFIED", "HARD", "SOFT"])
+    fb.message("Book", [("name", "string"), ("title", "string"), ("class", "string")])
+    req_all = [("name", "string", {"required": True}), ("r_str", "string", {"required": True}),
+               ("r_int", "int32", {"required": True}), ("r_i64", "int64", {"required": True}),
+               ("r_bool", "bool", {"required": True}), ("r_float", "float", {"required": True}),
+               ("r_double", "double", {"required": True}), ("r_bytes", "bytes", {"required": True}),
+               ("r_enum", "enum:Kind", {"required": True}), ("r_u32", "uint32", {"required": True}),
+               ("r_msg", "msg:Book", {"required": True}), ("r_rep", "string", {"required": True, "repeated": True}),
+               ("opt", "string"), ("class", "string", {"required": True})]
+    fb.message("GetRequest", req_all)
+    fb.message("PutRequest", [("name", "string", {"required": True}), ("book", "msg:Book", {"required": True}),
+                              ("r_str", "string", {"required": True}), ("mode", "int32")])
+    fb.message("PostRequest", [("parent", "string", {"required": True}), ("book_id", "string", {"required": True}),
+                               ("r_int", "int32", {"required": True}), ("extra", "string")])
+    fb.message("PatchRequest", [("book", "msg:Book", {"required": True}), ("r_str", "string", {"required": True})])
+    fb.message("DeleteRequest", [("name", "string", {"required": True}), ("etag", "string", {"required": True})])
+    fb.message("TwoVarRequest", [("parent", "string", {"required": True}), ("chapter_id", "string", {"required": True}),
+                                 ("view", "string", {"required": True})])
+    fb.message("NoHttpRequest", [("name", "string")])
+    s = fb.service("Library")
+    E = "google.protobuf.Empty"
+    fb.method(s, "GetThing", "GetRequest", "Book", http=("get", "/v1/{name=things/*}"))
+    fb.method(s, "PutThing", "PutRequest", "Book", http=("put", "/v1/{name=things/*}", "book"),
+              extra_http=[("put", "/v1/{name=shelves/*/things/*}", "book")])
+    fb.method(s, "PostThing", "PostRequest", "Book", http=("post", "/v1/{parent=shelves/*}/things", "*"))
+    fb.method(s, "PatchThing", "PatchRequest", "Book", http=("patch", "/v1/{book.name=things/*}", "book"))
+    fb.method(s, "DeleteThing", "DeleteRequest", E, http=("delete", "/v1/{name=things/*}"),
+              extra_http=[("delete", "/v1/{name=shelves/*/things/*}")])
+    fb.method(s, "TwoVars", "TwoVarRequest", "Book",
+              http=("get", "/v1/{parent=shelves/*/books/*}/chapters/{chapter_id}"))
+    fb.method(s, "ReservedVar", "GetRequest", "Book", http=("get", "/v1/{class=things/*}"))
+    fb.method(s, "NoHttp", "NoHttpRequest", "Book")
+    return [fb]
